@@ -185,6 +185,8 @@ def t4t_desc():
         "fsci": st.integers(0, 8), "fwi": st.integers(0, 14),
         "chunk": st.one_of(st.none(), st.integers(1, 253)),
         "wtx": st.sampled_from([0, 0, 0, 1, 2]),
+        # INF byte of the card's S(WTX): WTXM + power level indication
+        "wtxm": st.sampled_from([1, 1, 2, 0x41, 0x82, 0xC1]),
         "max_send": st.sampled_from([290, 290, 256, 64, 40]),
         "max_recv": st.sampled_from([290, 290, 256, 255, 64]),
         "filler": st.sampled_from([0x00, 0xFF])}).map(fix)
@@ -324,7 +326,8 @@ def build(desc, old_spec=("abs", 0), old_seed=1):
                                 old, filler=desc.get("filler", 0))
         b.tag = isodep_card.T4Tag(app, desc["tech"], desc["fsci"],
                                   desc["fwi"], desc.get("chunk"),
-                                  desc.get("wtx", 0))
+                                  desc.get("wtx", 0),
+                                  wtxm=desc.get("wtxm", 1))
         b.app = app
         b.cap, b.old = cap, old
         b.allowed = set(range(0, desc["fsize"]))
